@@ -61,7 +61,7 @@ def compile_so(src, tree=REPO, defs=()):
     out = os.path.join(d, '%s-%s.so' % (base, h))
     if not os.path.exists(out):
         tmp = out + '.%d.tmp' % os.getpid()
-        _run(['g++', '-std=c++17', '-O1', '-g', '-fno-access-control', '-fno-strict-aliasing', '-shared', '-fPIC', '-pthread'] + incs(tree) + defs + [src, '-o', tmp])
+        _run(['g++', '-std=c++17', '-O1', '-g', '-fno-access-control', '-fno-strict-aliasing', '-shared', '-fPIC', '-pthread', '-Wl,-Bsymbolic'] + incs(tree) + defs + [src, '-o', tmp, '-ldl'])
         os.replace(tmp, out)
         _gc(d, base + '-', keep=4)
     return out
